@@ -916,7 +916,14 @@ class Interp:
         module = env["__module__"]
         mod = self.prog.modules[module]
         if name in mod.globals and name not in mod.imports:
-            return self.eval(mod.globals[name], {"__module__": module, "__parent__": None, "__cls__": None})
+            g_ = mod.globals[name]
+            if isinstance(g_, ast.Call) and isinstance(g_.func, ast.Name) and g_.func.id == "object" and not g_.args:
+                # a module-level sentinel `X = object()`: one object per program, compared by identity
+                cache_ = self.prog.__dict__.setdefault("_sentinels", {})
+                if (module, name) not in cache_:
+                    cache_[(module, name)] = Obj("builtins.object", f"{module.rsplit('.', 1)[-1]}.{name}")
+                return cache_[(module, name)]
+            return self.eval(g_, {"__module__": module, "__parent__": None, "__cls__": None})
         q = self.prog.resolve_name(module, name)
         if q is not None:
             return self.ref(q)
@@ -1554,6 +1561,12 @@ class Interp:
             if is_num(a[0]):
                 return int(a[0]) if name == "int" else float(a[0])
             return Op("py_" + name, tuple(a))
+        if name == "object":
+            o_ = Obj("builtins.object", f"object#{self.fresh_id}")
+            self.fresh_id += 1
+            return o_
+        if name in ("staticmethod", "classmethod") and len(a) == 1:
+            return a[0]  # a wrapped function stored as a class attribute: looked up through an instance it is the function itself
         if name == "bool":
             if not a:
                 return False
@@ -1755,7 +1768,7 @@ OPERATOR_FUNCS = {"add": (("bin", "add"), 2), "sub": (("bin", "sub"), 2), "mul":
                   "floordiv": (("bin", "floordiv"), 2), "mod": (("bin", "mod"), 2), "neg": (("neg",), 1), "not_": (("not",), 1), "getitem": (("getitem",), 2),
                   "lt": (("cmp", ast.Lt), 2), "le": (("cmp", ast.LtE), 2), "gt": (("cmp", ast.Gt), 2), "ge": (("cmp", ast.GtE), 2), "eq": (("cmp", ast.Eq), 2), "ne": (("cmp", ast.NotEq), 2)}
 TORCH_DTYPES = {"float16", "float32", "float64", "bfloat16", "half", "float", "double", "int8", "int16", "int32", "int64", "uint8", "long", "int", "short", "bool", "complex64", "complex128"}
-BUILTINS = {"id", "callable", "len", "range", "list", "tuple", "map", "zip", "any", "all", "isinstance", "issubclass", "hasattr", "getattr",
+BUILTINS = {"id", "callable", "staticmethod", "classmethod", "len", "range", "list", "tuple", "map", "zip", "any", "all", "isinstance", "issubclass", "hasattr", "getattr",
             "setattr", "int", "float", "str", "repr", "abs", "min", "max", "sum", "round", "sorted", "reversed", "print",
             "iter", "dict", "type", "super", "ValueError", "TypeError", "RuntimeError", "KeyError", "AttributeError",
             "DeprecationWarning", "bytes", "bool", "object", "NotImplementedError", "AssertionError"}
